@@ -195,7 +195,7 @@ SELFTESTS = [selftest_pool]
 
 def obligations(tier: str):
     obls = []
-    t = 300 if tier == "quick" else 3000
+    t = 300 if tier == "quick" else 1200
     for qi, q in enumerate(POOL):
         for ck in range(7):
             for w in (("array",) if tier == "quick" else ("array", "object")):
